@@ -22,6 +22,7 @@ def run(ctx):
     r2(ctx)
     r3(ctx)
     r4(ctx)
+    forwarder_pipeline(ctx, "C08.R4")
     r5(ctx)
 
 
@@ -148,6 +149,120 @@ def r3(ctx):
     after = [x for c in rl for x in nodes_with(fp, c) if ptests and x in gp.reachable([ptests[0]], follow_exc=False)]
     ctx.check("C08.R3", len(rl) >= 2 and len(ptests) == 1 and bool(after) and all(x not in gp.reachable([(ptests[0], "false")], follow_exc=False) for x in after),
               key(fp, "second-line"), site(fp), "the request line is re-read without a PROXY line having been accepted", "a further read_line only after a PROXY line")
+
+
+def _self_attrs_stored(f):
+    out = set()
+    for n in walk_own(f.node):
+        if isinstance(n, ast.Attribute) and isinstance(n.ctx, ast.Store) and isinstance(n.value, ast.Name) and f.params and n.value.id == f.params[0]:
+            out.add("self." + n.attr)
+    return out
+
+
+def forwarder_pipeline(ctx, rid):
+    """A header literally named SCRIPT_NAME steers create()'s script-name local only when this peer is a trusted forwarder --
+    in *every* header_map mode.  Evaluated end to end, so that it does not matter where the trust decision is taken or how it
+    is carried: Message.__init__ gives the message's initial attributes, Message.parse_headers is run on the header block
+    under the cell's settings, and the header loop of wsgi.create is run for each header parse_headers kept, with `req.<attr>`
+    = the attributes the message has after parse_headers.  Required: a trusted peer whose SCRIPT_NAME is a configured
+    forwarder header sets the local (the feature works); an untrusted peer never does (dropped, refused or ignored)."""
+    repo = ctx.repo
+    fi = ctx.fn(repo.func(MSG + ".Message.__init__"))
+    fp = ctx.fn(repo.func(MSG + ".Message.parse_headers"))
+    fc = ctx.fn(repo.func(WSGI + ".create"))
+    REQ = fc.params[0]
+    attrs = _self_attrs_stored(fi) | _self_attrs_stored(fp)
+    DATA = fp.params[1]
+    FT = fp.params[2] if len(fp.params) > 2 else None
+    gc = fc.cfg
+    loops = [n for n in gc.nodes if n.kind == "for" and norm(n.ast.iter) == "%s.headers" % REQ]
+    ctx.need(loops and isinstance(loops[0].ast.target, ast.Tuple), rid + ": header loop of wsgi.create not found")
+    loop = loops[0]
+    HN, HV = [x.id for x in loop.ast.target.elts]
+    in_loop = [s_ for s_ in gc.stmts(ast.Assign) if len(s_.ast.targets) == 1 and isinstance(s_.ast.targets[0], ast.Name) and any(a is loop.ast for a in fc.module.ancestors(s_.ast))]
+    ENV = None
+    for r_ in gc.stmts(ast.Return):
+        if isinstance(r_.ast.value, ast.Tuple) and len(r_.ast.value.elts) == 2 and isinstance(r_.ast.value.elts[1], ast.Name):
+            ENV = r_.ast.value.elts[1].id
+    ctx.need(ENV, rid + ": create() does not return (resp, environ)")
+    MARK = "/mount-7"
+    probes = {}
+    for s_ in in_loop:
+        probes[s_.id] = ("local", lambda ex_, env, nm=s_.ast.targets[0].id, v=s_.ast.value: (nm, ex_.ev(v, env)))
+    rows = []
+    n_cells = 0
+    for mode in ("drop", "refuse", "dangerous"):
+        for peer_name, peer in (("listed", ("10.0.0.1", 4000)), ("unlisted", ("9.9.9.9", 4000)), ("unix", "")):
+            for allow in (("10.0.0.1",), ("*",), ()):
+                for fwd in (("SCRIPT_NAME", "PATH_INFO"), ("*",), ("REMOTE_USER",)):
+                    trusted = "*" in allow or not isinstance(peer, tuple) or peer[0] in allow
+                    listed_hdr = "SCRIPT_NAME" in fwd or "*" in fwd
+                    cfgv = {"is_ssl": False, "limit_request_fields": 100, "limit_request_field_size": 8190, "forwarded_allow_ips": allow, "secure_scheme_headers": {"X-FORWARDED-PROTO": "https"},
+                            "forwarder_headers": fwd, "strip_header_spaces": False, "permit_obsolete_folding": False, "header_map": mode}
+                    env0 = {"peer_addr": peer}
+                    for k_, v_ in cfgv.items():
+                        env0["cfg." + k_] = v_
+                        env0["self.cfg." + k_] = v_
+                    # the constructor up to the first parse step: initial attributes
+                    stop_calls = [n for c in method_calls(fi, "parse") for n in nodes_with(fi, c)]
+                    outs_i = Explorer(fi, tracked=sorted(attrs), max_states=20000).run(fi.cfg.entry, env0, stop=lambda n, sc=stop_calls: n in sc)
+                    states = [o.env for o in outs_i if o.kind in ("stop", "return")]
+                    ctx.need(states, rid + ": Message.__init__ could not be evaluated")
+                    verdicts = set()
+                    for st0 in states:
+                        env1 = {k_: v_ for k_, v_ in st0.items() if isinstance(k_, str) and k_.startswith("self.")}
+                        env1.update({"self.cfg." + k_: v_ for k_, v_ in cfgv.items()})
+                        env1["self.peer_addr"] = peer
+                        env1[DATA] = b"Host: x\r\nSCRIPT_NAME: " + MARK.encode()
+                        if FT:
+                            env1[FT] = False
+                        outs_p = Explorer(fp, tracked=sorted(attrs), max_states=200000).run(fp.cfg.entry, env1)
+                        for o in outs_p:
+                            if o.kind == "raise":
+                                verdicts.add("rejected")
+                                continue
+                            if o.kind != "return" or not isinstance(o.detail, (tuple, list)):
+                                verdicts.add("?" + o.kind)
+                                continue
+                            kept = [h for h in o.detail if isinstance(h, tuple) and len(h) == 2 and h[1] == MARK]
+                            if not kept:
+                                verdicts.add("dropped")
+                                continue
+                            env2 = {REQ + k_[4:]: v_ for k_, v_ in o.env.items() if isinstance(k_, str) and k_.startswith("self.")}
+                            env2.pop(REQ + ".headers", None)       # (the loop is entered once per kept header, with that header)
+                            for hn, hv in kept:
+                                e3 = dict(env2)
+                                e3.update({HN: hn, HV: hv, ENV: {}})
+                                outs_c = Explorer(fc, tracked=[ENV]).run(loop, e3, stop=lambda n: n is loop, start_label="true", probes=probes)
+                                for oc in outs_c:
+                                    hit = [e_[1][0] for e_ in oc.events if isinstance(e_, tuple) and e_[0] == "local" and not isinstance(e_[1], str) and e_[1][1] == MARK]
+                                    hit = [h_ for h_ in hit if h_ not in (HN, HV)]
+                                    unk = [e_ for e_ in oc.events if isinstance(e_, tuple) and e_[0] == "local" and (isinstance(e_[1], str) or (e_[1][1] is UNKNOWN and e_[1][0] not in (HN, HV)))]
+                                    verdicts.add("steers" if hit else ("?" if unk else "ignored"))
+                    n_cells += 1
+                    if trusted and listed_hdr:
+                        want = {"steers"}
+                    elif not trusted:
+                        want = None          # anything but steering
+                    else:
+                        want = False         # trusted peer, but the operator took SCRIPT_NAME off the forwarder list: not constrained here
+                    if want is False:
+                        okc = True
+                    elif want is None:
+                        okc = bool(verdicts) and verdicts <= {"rejected", "dropped", "ignored"}
+                    else:
+                        okc = verdicts == want
+                    if len(rows) < 30 or not okc:
+                        rows.append({"header_map": mode, "peer": peer_name, "forwarded_allow_ips": allow, "forwarder_headers": fwd, "SCRIPT_NAME header": sorted(verdicts),
+                                     "required": "steers" if want else ("never steers" if want is None else "-")})
+                    ctx.check(rid, okc, key(fc, "script-name-trust|%s|%s|%s|%s" % (mode, peer_name, ",".join(allow), ",".join(fwd))),
+                              site(fc, text="header_map=%s, %s peer, forwarded_allow_ips=%s, forwarder_headers=%s" % (mode, peer_name, list(allow), list(fwd))),
+                              "a request header `SCRIPT_NAME: %s` from a %s peer (forwarded_allow_ips=%s, forwarder_headers=%s, header_map=%s) is %s by parse_headers + create(); required: %s" % (
+                                  MARK, peer_name, list(allow), list(fwd), mode, sorted(verdicts),
+                                  "it sets the script name (a trusted forwarder's SCRIPT_NAME is honoured)" if want else "it never sets the script name: the peer is not in forwarded_allow_ips (the header may at most appear as HTTP_SCRIPT_NAME)"),
+                              "trusted&listed -> steers; untrusted -> never")
+    ctx.floor(rid, "script-name trust cells", n_cells, 81)
+    ctx.table(rid + " SCRIPT_NAME header x trust x header_map (sample)", rows[:40])
 
 
 def r4(ctx):
